@@ -54,6 +54,16 @@ def getCollectionValue(collection, what):
         return None
 
 
+def getIndex(idx, pos):
+    if not idx.isNumerical():
+        raise CklRuntimeError(
+            ValueString("ERROR"),
+            f"Expected numerical index but got {idx.type()}",
+            pos,
+        )
+    return int(idx.value)
+
+
 def getFuncallString(fn, args):
     return f"{fn.name}({args.toStringAbbrev()})"
 
@@ -492,7 +502,7 @@ class NodeDeref:
                     self.pos,
                 )
             s = value.value
-            i = int(idx.value)
+            i = getIndex(idx, self.pos)
             if i < 0:
                 i = i + len(s)
             if i < 0 or i >= len(s):
@@ -509,7 +519,7 @@ class NodeDeref:
                     self.pos,
                 )
             lst = value.value
-            i = int(idx.value)
+            i = getIndex(idx, self.pos)
             if i < 0:
                 i = i + len(lst)
             if i < 0 or i >= len(lst):
@@ -575,7 +585,7 @@ class NodeDerefAssign:
 
         if container.isString():
             s = container.value
-            i = int(idx.value)
+            i = getIndex(idx, self.pos)
             if i < 0:
                 i = i + len(s)
             if i < 0 or i >= len(s):
@@ -587,7 +597,7 @@ class NodeDerefAssign:
 
         if container.isList():
             lst = container.value
-            i = int(idx.value)
+            i = getIndex(idx, self.pos)
             if i < 0:
                 i = i + len(lst)
             if i < 0 or i >= len(lst):
@@ -704,8 +714,8 @@ class NodeDerefSlice:
 
         if value.isString():
             s = value.value
-            start = int(start.value)
-            end = int(end.value) if end else len(s)
+            start = getIndex(start, self.pos)
+            end = getIndex(end, self.pos) if end else len(s)
             if start < 0:
                 start += len(s)
             if end < 0:
@@ -720,8 +730,8 @@ class NodeDerefSlice:
 
         if value.isList():
             lst = value.value
-            start = int(start.value)
-            end = int(end.value) if end else len(lst)
+            start = getIndex(start, self.pos)
+            end = getIndex(end, self.pos) if end else len(lst)
             if start < 0:
                 start += len(lst)
             if end < 0:
